@@ -78,6 +78,9 @@ def gen_cases(rng, tier):
             cases.append({'kind': 'cast_schema', 'rows': rows, 'policy': pol, 'limit': n_})
     cases += gen_select_cases(rng, max(16, n // 4))
     cases += gen_live_cases()
+    for sch in (True, False):
+        for fl in (True, False):
+            cases.append({'kind': 'override', 'schema': sch, 'fields': fl})
     for i in range(max(16, n // 3)):
         # schema casting with the schema inferred from the file itself (all rows are inside the inference sample): no row
         # can be offending, text cells keep their text (stripped when asked), whatever the padding of the cells
@@ -125,14 +128,33 @@ def gen_select_cases(rng, n):
             sel = ['int', rng.pick([names.index(pair[0]), names.index(pair[0]) - len(names), rng.randint(-len(names), len(names) - 1)])]
         else:
             sel = ['re', rng.pick([names[0].replace('+', '\\+'), 'sales.2020', 'a.b', 'a.*', 'sales.*', 'a\\+', '.*2020'])]
-        cases.append({'kind': 'pkgselect', 'names': names, 'sel': sel, 'how': rng.pick(['dp', 'tuple']),
+        cases.append({'kind': 'pkgselect', 'names': names, 'sel': sel, 'how': rng.pick(['dp', 'tuple', 'dp', 'tuple', 'dp_cwd']),
                       'nrows': [rng.randint(0, 3) for _ in names]})
     # systematically: list selectors that name the resources in another order than the package holds them, and twice
-    for how in ('dp', 'tuple'):
+    for how in ('dp', 'tuple', 'dp_cwd'):
         names = ['people', 'cities', 'rivers']
         for sel in (['rivers', 'people'], ['rivers', 'cities', 'people'], ['cities', 'people'], ['people', 'people', 'rivers']):
             cases.append({'kind': 'pkgselect', 'names': names, 'sel': ['list', sel], 'how': how, 'nrows': [2, 3, 1]})
     return cases
+
+
+def run_override(case):
+    """override_schema naming the fields and override_fields refining some of them, together: the refinements apply"""
+    text = 'd,n,b,q\n31/12/2020,"1.234,5",ja,5\n01/02/2021,"7,25",nein,50\n'
+    path = os.path.join(scratch(), 'ov_%s.csv' % digest(case))
+    open(path, 'w', newline='', encoding='utf-8').write(text)
+    kw = {}
+    if case['schema']:
+        kw['override_schema'] = {'fields': [{'name': n, 'type': 'string'} for n in ('d', 'n', 'b', 'q')], 'missingValues': ['', 'NA']}
+    if case['fields']:
+        kw['override_fields'] = {'d': {'type': 'date', 'format': '%d/%m/%Y'}, 'n': {'type': 'number', 'decimalChar': ',', 'groupChar': '.'},
+                                 'b': {'type': 'boolean', 'trueValues': ['ja'], 'falseValues': ['nein']},
+                                 'q': {'type': 'integer', 'constraints': {'maximum': 10}}}
+    out = run_stream([], [Load(path, name='res', cast_strategy=Load.CAST_WITH_SCHEMA, on_error=Load.ERRORS_DROP, infer_strategy=Load.INFER_STRINGS, **kw)])
+    if 'error' in out:
+        return {'error': out['error'], 'exc': out['exc']}
+    return {'rows': rows_enc(out['rows'][0]), 'types': [[f['name'], f['type']] for f in out['dp']['resources'][0]['schema']['fields']],
+            'mv': out['dp']['resources'][0]['schema'].get('missingValues')}
 
 
 LIVE_FLOWS = ['plain', 'duplicate', 'duplicate_end', 'join_keep', 'join_delete', 'concat', 'dump', 'delete', 'sort']
@@ -209,9 +231,20 @@ def run_pkgselect(case):
     d = os.path.join(scratch(), 'ps_%s' % digest(case))
     shutil.rmtree(d, ignore_errors=True)
     try:
-        if case['how'] == 'dp':
+        if case['how'] in ('dp', 'dp_cwd'):
             with quiet():
                 Flow(Src(res), DF.dump_to_path(d)).process()
+            if case['how'] == 'dp_cwd':
+                # the package loaded by its bare file name, from inside its directory
+                old = os.getcwd()
+                os.chdir(d)
+                try:
+                    out = run_stream([], [Load('datapackage.json', resources=sel)])
+                finally:
+                    os.chdir(old)
+                if 'error' in out:
+                    return {'error': out['error'], 'exc': out['exc']}
+                return {'names': [r['name'] for r in out['dp']['resources']], 'rows': [rows_enc(x) for x in out['rows']]}
             step = Load(os.path.join(d, 'datapackage.json'), resources=sel)
         else:
             ds = Flow(Src(res)).datastream()
@@ -230,6 +263,8 @@ def run_impl(case):
         return run_pkgselect(case)
     if k == 'livepair':
         return run_livepair(case)
+    if k == 'override':
+        return run_override(case)
     if k == 'headers':
         return {'headers': Load.rename_duplicate_headers(list(case['headers']), case_sensitive=case['cs'],
                                                          deduplicate_format=case['fmt'][0] + '%s' + case['fmt'][1])}
@@ -326,6 +361,21 @@ def true_parse(text):
 
 def oracle(case, out):
     k = case['kind']
+    if k == 'override':
+        what = 'load(override_schema=%s, override_fields=%s, cast with schema, drop on error)' % ('given' if case['schema'] else 'None', 'given' if case['fields'] else 'None')
+        if 'error' in out:
+            return '%s failed: %s' % (what, out['exc'])
+        if case['fields']:
+            want_types = [['d', 'date'], ['n', 'number'], ['b', 'boolean'], ['q', 'integer']]
+            want_rows = [{'d': datetime.date(2020, 12, 31), 'n': decimal.Decimal('1234.5'), 'b': True, 'q': 5}]      # (the second row violates maximum: dropped)
+        else:
+            want_types = [[x, 'string'] for x in 'dnbq']
+            want_rows = [{'d': '31/12/2020', 'n': '1.234,5', 'b': 'ja', 'q': '5'}, {'d': '01/02/2021', 'n': '7,25', 'b': 'nein', 'q': '50'}]
+        if out['types'] != want_types or rows_dec(out['rows']) != want_rows:
+            return '%s: fields %r rows %r; the overrides give %r and %r' % (what, out['types'], rows_dec(out['rows']), want_types, want_rows)
+        if case['schema'] and out['mv'] != ['', 'NA']:
+            return '%s: missingValues of override_schema not in the descriptor (%r)' % (what, out['mv'])
+        return None
     if k == 'livepair':
         what = 'load((descriptor, resources), resources=%r) over the live stream of a flow with %s' % (out.get('sel'), case['flow'])
         if 'error' in out:
@@ -532,6 +582,8 @@ def finding(case, out, failure):
 
 def coq_term(case, out):
     k = case['kind']
+    if k == 'override':
+        return None
     if k == 'livepair':
         if 'error' in out:
             return None
